@@ -133,6 +133,7 @@ KNOWN_WITNESSES = [
     ('python_version in "3.9, 3.10"', 'python_version < "3.5"', "and", {"python_version": "3.1", "python_full_version": "3.1.0"}),          # pv-in-substring
     ('python_version <= "3.8.1"', 'python_full_version >= "3.8.3"', "and", {"python_version": "3.8", "python_full_version": "3.8.5"}),   # pv-long-operand
     ('python_full_version < "3.13"', 'python_full_version >= "3.13"', "or", {"python_version": "3.13", "python_full_version": "3.13.0a1"}),  # nonfinal-env
+    ('python_full_version >= "3.7.0"', 'python_full_version < "3.8.post1"', "and", {"python_version": "3.8", "python_full_version": "3.8.0"}),     # tilde-max-post
 ]
 
 
@@ -220,6 +221,27 @@ def env_class(texts, env) -> str:
     its comma-separated elements (e.g. 3.1 against "3.9, 3.10"): evaluation is PEP 508 string containment,
     the specifier view treats the list as a set of versions"""
     import re
+    # tilde-max-post (recorded for C06 / C04, witness C06_tilde_refuted) seen through markers: an upper bound `< "X.Y.postN"` next to a lower bound
+    # makes the merged range render as `~=...`, which drops the releases between X.Y and X.Y.postN; only interpreters of that very release differ
+    from packaging.version import Version as _V, InvalidVersion as _IV
+    for var in ("python_full_version", "implementation_version", "platform_release", "python_version"):
+        val = env.get(var)
+        if not isinstance(val, str):
+            continue
+        try:
+            vrel = (tuple(_V(val).release) + (0, 0, 0))[:3]
+        except _IV:
+            continue
+        names = ("python_version", "python_full_version") if var in ("python_version", "python_full_version") else (var,)
+        for t in texts:
+            for nm in names:
+                lits = re.findall(nm + r'\s*<=?\s*"([^"]*post[^"]*)"', t or "") + re.findall(r'"([^"]*post[^"]*)"\s*>=?\s*' + nm, t or "")
+                for lit in lits:
+                    try:
+                        if (tuple(_V(lit).release) + (0, 0, 0))[:3] == vrel and _V(val) < _V(lit):
+                            return "tilde-max-post|"
+                    except _IV:
+                        pass
     series = pv_long_operand(texts)
     if series and pv_pair_atoms(texts):
         pv = str(env.get("python_version", ""))
